@@ -373,6 +373,35 @@ def sane_case(rng):
     return adj, tasks, ["sched", o, []]
 
 
+def mono_case(rng):
+    """heads that are SCHEDULED for later (placed, not started), VIRTUAL successors whose estimated completion
+    falls inside the horizon for some of the lookaheads, no retraction: the state in which the scheduler is
+    re-invoked before a planned task starts"""
+    adj = rand_dag(rng, rng.choice([2, 3, 3, 4, 5]), rng.choice([0.5, 0.7, 0.9]))
+    tasks = gen_tasks(rng, adj, None, "fresh")
+    par = parents_of(adj)
+    time = rng.choice([0, 5, 100])
+    for n, f in tasks.items():
+        f[5] = rng.random() < 0.1
+        f[6] = False
+        f[9] = [rng.choice([1, 2, 3])]
+        if not par[n]:
+            r = rng.random()
+            if r < 0.8:
+                f[0], f[7], f[3] = 3, time + rng.choice([0, 2, 5, 400]), rng.choice([1, 2, 3])   # SCHEDULED for later
+                f[1] = rng.choice([0, time])
+            elif r < 0.9:
+                f[0], f[1] = 2, time + rng.choice([3, 50])                                       # RELEASED, in the future
+            else:
+                f[0], f[1] = 1, time + 50                                                        # not yet released
+        else:
+            f[0], f[1] = 1, -1
+    l1 = rng.choice([0, 3, 6, 10, 410])
+    l2 = l1 + rng.choice([1, 5, 30, 400])
+    base = {"time": time, "preemption": False, "retract": False, "placed": None, "policy": 4}
+    return adj, tasks, [dict(base, lookahead=l, release_tg=r) for l, r in ((l1, False), (l1, True), (l2, False), (l2, True))]
+
+
 def bigger(rng, o):
     o2 = dict(o)
     o2["lookahead"] = o["lookahead"] + rng.choice([0, 1, 3, 10, 40])
@@ -465,12 +494,25 @@ def run(ctx):
         if op[0] == "sched" and len(pairs) < (200 if quick else 1500):
             triples.append((a, t, ["sched", bigger(rng, op[1]), op[2]]))
             pairs.append((i, len(triples) - 1))
+    # source-independent monotonicity: the REAL get_schedulable_tasks under (l1, off), (l1, on), (l2, off), (l2, on)
+    # on states with SCHEDULED-for-later heads and VIRTUAL successors, identical draws
+    quads = []
+    for _ in range(60 if quick else 700):
+        a, t, os_ = mono_case(rng)
+        at = len(triples)
+        for o in os_:
+            triples.append((a, t, ["sched", o, []]))
+        quads.append(at)
+        for x, y in ((0, 1), (0, 2), (1, 3), (2, 3)):
+            pairs.append((at + x, at + y))
     ctx.rules.append("S-taskgraph: (DAG x per-task state vector x operation) on 1-8 nodes: random DAGs with random key/children "
                      "order and structured conditional/join graphs (nested, empty branches, extra parents), all 8 task states, "
                      "run-like states (completed prefix, released / scheduled / running tasks below it), "
                      "operations get_schedulable_tasks under all switch combinations / lookaheads / times / 5 branch policies "
                      "(RANDOM fed with recorded draws) with and without worker-pool placed tasks, the same call again with a larger "
-                     "lookahead / release_taskgraphs, get_releasable_tasks, notify_task_completion with each draw, is_ready_to_run, "
+                     "lookahead / release_taskgraphs (and, on states whose heads are SCHEDULED for later with VIRTUAL successors, all four of "
+                     "(lookahead l1 < l2) x (release_taskgraphs off / on); the offers must be nested: checked in Python on the "
+                     "implementation's answers alone), get_releasable_tasks, notify_task_completion with each draw, is_ready_to_run, "
                      "resolve_conditional, topological_sort, depth_first, is_complete/is_cancelled; S-workload: "
                      "Workload.get_schedulable_tasks over 2-3 graphs; distinct = distinct (mapping, tasks, operation); "
                      "non-trivial = at least 3 tasks and one edge")
@@ -588,6 +630,13 @@ def run(ctx):
                  "workload_cases": len(cases)})
     ctx.cov["input_distribution"] = {"ops": dist}
 
+    mono_py_bad = [(i, j) for i, j in pairs if res[i][0] == 0 and res[j][0] == 0
+                   and not set(res[i][1][0]) <= set(res[j][1][0])]
+    dist["mono_quadruples"] = len(quads)
+    dist["mono_quadruples_where_release_tg_or_lookahead_adds_a_task"] = sum(
+        1 for at in quads if all(res[at + k][0] == 0 for k in range(4))
+        and len({tuple(sorted(res[at + k][1][0])) for k in range(4)}) > 1)
+
     def report(idx, tag, what, extra=None):
         a, t, op = triples[idx]
         d = {"stream": "S-taskgraph monitor", "mapping": a,
@@ -598,7 +647,11 @@ def run(ctx):
     W1 = ("get_schedulable_tasks: a RELEASED task whose release time has arrived is missing, or a COMPLETED / CANCELLED task is "
           "offered, or a SCHEDULED / RUNNING task is offered without retraction / preemption")
     W2 = "a policy that does not plan ahead (lookahead 0, no retraction, no release_taskgraphs) was offered a VIRTUAL task with an unfinished parent"
-    W3 = "a larger lookahead / release_taskgraphs removed a task from the frontier"
+    W3 = ("get_schedulable_tasks: the same graph, states, time and draws, a larger lookahead and/or release_taskgraphs switched on, "
+          "and a task of the first offer is missing from the second (C18_mono)")
+    for i, j in mono_py_bad[:3]:
+        report(i, "mono", W3, {"second_call_options": triples[j][2][1], "second_call_result": res[j],
+                               "missing_from_second_offer": sorted(set(res[i][1][0]) - set(res[j][1][0]))})
     W4 = "notify_task_completion did not release exactly the children whose every parent is complete (join: after its first parent)"
     try:
         # the three monitors over the same observations are evaluated together (parsing the cases dominates);
@@ -617,7 +670,8 @@ def run(ctx):
             1 for i in fwhere if py_no_plan_ahead_applies(*triples[i]))
         for b in ctx.monitor_stream("S-mono", HEADER, "list Z * list Z", "c18_mono_check", mcases)[:3]:
             i, j = mwhere[b]
-            report(i, "mono", W3, {"second_call_options": triples[j][2][1], "second_call_result": res[j]})
+            if (i, j) not in mono_py_bad:      # (already reported by the Python form of the same check)
+                report(i, "mono", W3, {"second_call_options": triples[j][2][1], "second_call_result": res[j]})
         for b in ctx.monitor_stream("S-children", HEADER, "tgraph * Z * list Z", "c18_children_check", ccases)[:3]:
             report(cwhere[b], "children", W4)
         for b in ctx.monitor_stream("S-children-err", HEADER, "tgraph * Z", "c18_children_err_check", ecases)[:3]:
@@ -634,10 +688,6 @@ def run(ctx):
             a, t, op = triples[i]
             if not py_frontier_check(a, t, op[1], res[i][1][0]):
                 report(i, "frontier", W1 + " (Python fallback of the monitor)")
-                break
-        for i, j in mwhere:
-            if not set(res[i][1][0]) <= set(res[j][1][0]):
-                report(i, "mono", W3 + " (Python fallback)", {"second_call_options": triples[j][2][1], "second_call_result": res[j]})
                 break
         for i in cwhere:
             a, t, op = triples[i]
